@@ -37,6 +37,8 @@ def run(ctx):
         'D5 re-binding of view-wrapped storage (as done by copy_like through _expand_phases / row replacement) drops the cached mass/volume views',
         'D6 after copy_like / mix_from change the phase tuple the shared lookup cache is re-selected for the new (phases, chemicals) key',
         'D7 every attribute stored on an instance created with K.__new__(K) in the stream / indexer / sparse modules is storable there',
+        'D10 in both copy_like implementations, on every path where the two chemicals objects differ, each store into the target\'s data takes its value from the '
+        'source indexed by the right-hand result of index_overlap and writes it at the left-hand result (never a whole row or array by position)',
         'D9 MultiStream.__init__ does not call Stream.__init__; every slot that the copy / proxy / flow_proxy / link_with / unlink / copy_like methods it inherits read '
         'from self is assigned (transitively) by MultiStream.__init__ as well',
         'D8 copy_like between property packages maps positions through index_overlap: its memo is keyed by the ordered CAS tuple and kept on the package whose table the positions come from',
@@ -62,6 +64,8 @@ def run(ctx):
     d6 = ctx.rule('D6', 'the per-(phases, chemicals) index cache of the copy target is refreshed after its inputs change', floor=3)
     from ..generic import index_cache_follows_inputs
     index_cache_follows_inputs(prog, d6)
+    d10 = ctx.rule('D10', 'copy_like between property packages moves every value through the CAS index map', floor=4)
+    cross_package_map(ctx, d10)
     d9 = ctx.rule('D9', 'slots read by the inherited copy/proxy/link methods are initialised by MultiStream.__init__ too', floor=5)
     ctor_slot_coverage(ctx, d9)
     d8 = ctx.rule('D8', 'cross-package copies: the position memo of index_overlap is keyed and owned consistently', floor=2)
@@ -448,3 +452,53 @@ def ctor_slot_coverage(ctx, rule):
             rule.ok('MultiStream.' + name, 'every slot it reads from self (%s) is assigned by MultiStream.__init__' % ', '.join(reads[:6]), f)
     if n < 5:
         raise AnalysisError('MultiStream: expected >= 5 inherited copy/proxy/link methods, found %d' % n)
+
+
+def cross_package_map(ctx, rule):
+    """Positions mean different chemicals in different property packages.  On a path where `self.chemicals is other.chemicals` is
+    false, a value may reach the target only as  target[..., LEFT] (op)= source[..., RIGHT]  with (LEFT, RIGHT) the pair returned by
+    index_overlap on that path."""
+    prog = ctx.prog
+    for cname in ('ChemicalIndexer', 'MaterialIndexer'):
+        f = prog.method(cname, 'copy_like', rel=IX)
+        o_ = f.params[1]
+        ps, _ = run_paths(f.node, max_paths=4000)
+        seen = {}
+        for p in ps:
+            if p.raised:
+                continue
+            same = None
+            for t, taken in p.conds:
+                if not isinstance(t, str) and src(t) in ('self.chemicals is %s.chemicals' % o_, '%s.chemicals is self.chemicals' % o_):
+                    same = taken
+            if same is not False:
+                continue
+            pair = None
+            for e in p.events:
+                if e.kind == 'assign' and isinstance(e.stmt, ast.Assign) and isinstance(e.stmt.value, ast.Call) and src(e.stmt.value.func) == 'index_overlap' \
+                        and isinstance(e.stmt.targets[0], ast.Tuple) and len(e.stmt.targets[0].elts) == 2:
+                    pair = tuple(x.id for x in e.stmt.targets[0].elts)
+            for e in p.events:
+                if e.kind not in ('store', 'augstore') or not isinstance(e.node, ast.Subscript):
+                    continue
+                tgt = e.target
+                if not (tgt.startswith('self.data') or tgt.startswith('self._imol')):
+                    continue
+                v = e.stmt.value
+                if isinstance(v, ast.Constant):
+                    continue
+                key = (e.stmt.lineno,)
+                tsl = src(e.node.slice)
+                vsl = [src(x.slice) for x in ast.walk(v) if isinstance(x, ast.Subscript)]
+                good = pair is not None and pair[0] in tsl.replace('(', ' ').replace(')', ' ').replace(',', ' ').split() \
+                    and any(pair[1] in y.replace('(', ' ').replace(')', ' ').replace(',', ' ').split() for y in vsl)
+                seen.setdefault(key, []).append((good, e))
+        if not seen:
+            raise AnalysisError('%s.copy_like: no cross-package transfer found' % cname)
+        for key, lst in sorted(seen.items()):
+            e = lst[0][1]
+            if all(g for g, _ in lst):
+                rule.ok('%s.copy_like' % cname, 'cross-package transfer %s goes through the index_overlap pair' % src(e.stmt)[:80], f, e.stmt)
+            else:
+                rule.fail('%s.copy_like' % cname, 'cross-package-by-position', 'on a path where the two property packages differ, %s moves values by position, not through the CAS '
+                          'index map returned by index_overlap: chemicals land on other species' % src(e.stmt)[:90], f, e.stmt)
